@@ -6,16 +6,16 @@ Import ListNotations.
 Local Open Scope Z_scope.
 
 Section Proofs.
-Context (A : Alg) (db : database).
+Context (A : Alg) (db : database) (v : variant).
 
 Notation spf := (spf db).
 Notation eof := (eof db).
 Notation spec_val := (spec_val A db).
 Notation spec_window := (spec_window A db).
 Notation spec_count := (spec_count db).
-Notation impl_read := (impl_read A db).
-Notation uncovered := (uncovered A db).
-Notation covered := (covered A db).
+Notation impl_read := (impl_read A db v).
+Notation uncovered := (uncovered A db v).
+Notation covered := (covered A db v).
 Notation wf := (wf db).
 
 Lemma spf_pos f : wf f -> 0 < spf f.
@@ -59,10 +59,14 @@ Proof.
   { assert (n = 0) by lia. subst n. simpl. rewrite zrange_nil; [reflexivity|lia]. }
   replace (n <=? 0) with false in Hc by (symmetry; apply Z.leb_gt; lia).
   pose proof (tag_if_nil _ _ Hc) as Hp.
+  assert (Hpad : s < st -> (if v_rawpad v then pad A rt else raw_pad A rt (r_ty r)) = pad A rt).
+  { intro Hlt. destruct (v_rawpad v); [reflexivity|]. simpl in Hp.
+    replace (s <? st) with true in Hp by (symmetry; apply Z.ltb_lt; lia). simpl in Hp.
+    apply negb_false_iff in Hp. apply (pad_ok_sound A) in Hp. exact Hp. }
   set (len := zlen (r_data r)). assert (0 <= len) by apply zlen_nonneg.
   destruct (Z.ltb_spec s st) as [Hlt|Hge].
   - (* window starts in the frame-offset padding *)
-    simpl in Hp. apply negb_false_iff in Hp. apply (pad_ok_sound A) in Hp.
+    rewrite (Hpad Hlt).
     replace (0 <? st - s) with true by (symmetry; apply Z.ltb_lt; lia).
     destruct (Z.ltb_spec n (st - s)) as [Hall|Hpart].
     + (* all padding *)
@@ -115,60 +119,48 @@ Proof. destruct e; simpl; lia. Qed.
 Lemma cap_nonneg e s c : 0 <= c -> 0 <= cap e s c.
 Proof. destruct e; simpl; lia. Qed.
 
-(* MULTIPLY / DIVIDE / WINDOW / MPLEX: aligned start, second input not exhausted *)
-Lemma bin_stage (E : ext) s q c s1 s2 :
-  0 < s1 -> 0 < s2 -> 0 < c -> s * s2 = q * s1 -> elt q E ->
-  let num2 := cdiv (c * s2) s1 in
-  let c2 := ecount E q num2 in
-  let n1 := if (0 <? c2) && (c2 * s1 <? c * s2) then c2 * s1 / s2 else c in
-  0 < c2 /\ n1 = cap (escale E s1 s2) s c /\ (forall i, 0 <= i < n1 -> i * s2 / s1 < c2).
+(* what the code computes as first sample and remainder of a later input
+   satisfies the division equation wherever the read is covered *)
+Lemma align_facts s s1 s2 :
+  0 < s1 -> negb (v_align v) && negb (divides s1 (s * s2)) = false ->
+  s * s2 = first2 v s s1 s2 * s1 + rem2 v s s1 s2 /\ 0 <= rem2 v s s1 s2 < s1 /\
+  first2 v s s1 s2 = s * s2 / s1 /\ rem2 v s s1 s2 = arem s s1 s2.
 Proof.
-  intros H1 H2 Hc Hq He. destruct E as [e2|]; simpl in *.
-  - pose proof (bin_count_fin s1 s2 c (e2 - q) H1 H2 Hc ltac:(lia)) as H. simpl in H.
-    replace (Z.min (cdiv (c * s2) s1) (Z.max 0 (e2 - q))) with (Z.min (cdiv (c * s2) s1) (e2 - q)) by lia.
-    destruct H as (Ha & Hb & Hd). split; [exact Ha|]. split; [|exact Hd].
-    rewrite Hb. rewrite (scale_shift e2 s q s1 s2 H2 Hq).
-    assert (0 <= (e2 - q) * s1 / s2) by (apply Z.div_pos; nia). lia.
-  - apply bin_count_inf; auto.
+  intros H1 Hd. unfold first2, rem2, arem. destruct (v_align v); simpl in Hd.
+  - pose proof (Z.div_mod (s * s2) s1 ltac:(lia)). pose proof (Z.mod_pos_bound (s * s2) s1 H1).
+    repeat split; lia.
+  - apply negb_false_iff in Hd. pose proof (divides_spec s1 (s * s2) H1 Hd) as Hq.
+    destruct (quot_exact (s * s2) s1 (s * s2 / s1) H1 Hq) as [Hquot _].
+    unfold divides in Hd. apply Z.eqb_eq in Hd. rewrite Hquot, Hd. repeat split; lia.
 Qed.
 
-(* LINCOM: s2 = k * s1 *)
-Lemma lin_stage (E : ext) s c s1 k :
-  0 < s1 -> 0 < k -> 0 < c ->
-  let s2 := k * s1 in
-  let c2 := ecount E (s * k) (c * k) in
-  let n1 := if c2 * s1 =? c * s2 then c else c2 * s1 / s2 in
-  (c2 = 0 -> cap (escale E s1 s2) s c = 0) /\
-  (0 < c2 -> n1 = cap (escale E s1 s2) s c /\ (forall i, 0 <= i < n1 -> i * s2 / s1 < c2)).
+(* the count after the second read is the number of derived samples below the
+   scaled end-of-field, and every kernel index is inside what was read *)
+Lemma bin_stage (E : ext) s q r c s1 s2 :
+  0 < s1 -> 0 < s2 -> 0 < c -> s * s2 = q * s1 + r -> 0 <= r < s1 -> elt q E ->
+  let num2 := cdiv (r + c * s2) s1 in
+  let c2 := ecount E q num2 in
+  let n1 := alim c2 c s1 s2 r in
+  0 < c2 /\ n1 = cap (escale E s1 s2) s c /\ (forall i, 0 <= i < n1 -> (r + i * s2) / s1 < c2).
 Proof.
-  intros H1 Hk Hc s2 c2 n1.
-  assert (Hidx : forall i, i * s2 / s1 = i * k).
-  { intro i. unfold s2. replace (i * (k * s1)) with (i * k * s1) by lia. apply Z.div_mul. lia. }
-  destruct E as [e2|]; simpl in *.
-  - assert (Hx : e2 * s1 / s2 = e2 / k).
-    { unfold s2. rewrite Z.div_mul_cancel_r by lia. reflexivity. }
-    split.
-    + intro Hz. rewrite Hx. assert (e2 <= s * k) by (unfold c2 in Hz; nia).
-      assert (e2 / k < s + 1) by (apply div_lt_iff; nia). lia.
-    + intro Hp. assert (Hd : 0 < e2 - s * k) by (unfold c2 in Hp; lia).
-      pose proof (lin_count k c (e2 - s * k) Hk Hc Hd) as H. simpl in H.
-      assert (Hc2 : c2 = Z.min (c * k) (e2 - s * k)) by (unfold c2; lia).
-      rewrite <- Hc2 in H. destruct H as [Ha Hb].
-      assert (Hn : n1 = (if c2 =? c * k then c else c2 / k)).
-      { unfold n1, s2. destruct (Z.eqb_spec c2 (c * k)) as [->|Hne].
-        - replace (c * k * s1 =? c * (k * s1)) with true by (symmetry; apply Z.eqb_eq; lia). reflexivity.
-        - replace (c2 * s1 =? c * (k * s1)) with false by (symmetry; apply Z.eqb_neq; nia).
-          rewrite Z.div_mul_cancel_r by lia. reflexivity. }
-      split.
-      * rewrite Hn, Ha, Hx.
-        replace (e2 / k - s) with ((e2 - s * k) / k).
-        2:{ replace (e2 - s * k) with (e2 + (- s) * k) by lia. rewrite Z.div_add by lia. lia. }
-        assert (0 <= (e2 - s * k) / k) by (apply Z.div_pos; lia). lia.
-      * intros i Hi. rewrite Hidx. apply Hb. rewrite <- Hn. exact Hi.
-  - split; [unfold c2; nia|]. intros _.
-    assert (Hn : n1 = c).
-    { unfold n1, c2, s2. replace (c * k * s1 =? c * (k * s1)) with true by (symmetry; apply Z.eqb_eq; lia). reflexivity. }
-    split; [exact Hn|]. intros i Hi. rewrite Hidx. unfold c2. nia.
+  intros H1 H2 Hc Hq Hr He. destruct E as [e2|]; simpl in *.
+  - pose proof (bin_count_fin_r s1 s2 c (e2 - q) r H1 H2 Hc ltac:(lia) Hr) as H. cbv zeta in H.
+    replace (Z.min (cdiv (r + c * s2) s1) (Z.max 0 (e2 - q))) with (Z.min (cdiv (r + c * s2) s1) (e2 - q)) by lia.
+    destruct H as (Ha & Hb & Hd). split; [exact Ha|]. split; [|exact Hd].
+    rewrite Hb. rewrite (scale_shift_r e2 s q r s1 s2 H2 Hq).
+    assert (0 <= ((e2 - q) * s1 - r) / s2) by (apply Z.div_pos; nia). lia.
+  - apply bin_count_inf_r; auto.
+Qed.
+
+(* the later input is exhausted at the start: nothing is left *)
+Lemma cap_zero (E : ext) s q r c s1 s2 num2 :
+  0 < s1 -> 0 < s2 -> 0 <= c -> s * s2 = q * s1 + r -> 0 <= r < s1 -> 0 < num2 ->
+  ecount E q num2 = 0 -> cap (escale E s1 s2) s c = 0.
+Proof.
+  intros H1 H2 Hc Hq Hr Hn. destruct E as [e2|]; simpl; [|lia]. intro Hz.
+  assert (He : e2 <= q) by lia.
+  rewrite (scale_shift_r e2 s q r s1 s2 H2 Hq).
+  assert (((e2 - q) * s1 - r) / s2 < 1) by (apply div_lt_iff; nia). lia.
 Qed.
 
 (* ---- unfolding equations ---------------------------------------------------- *)
@@ -178,17 +170,12 @@ Lemma impl_read_bin rt o g h s n :
   let n1 := zlen X in
   if n1 =? 0 then Some [] else
   let s1 := spf g in let s2 := spf h in
-  let num2 := cdiv (n1 * s2) s1 in
-  let first2 := Z.quot (s * s2) s1 in
-  obind (impl_read (b_in2 o) h first2 num2) (fun Y =>
+  let r := rem2 v s s1 s2 in
+  obind (impl_read (b_in2 o) h (first2 v s s1 s2) (cdiv (r + n1 * s2) s1)) (fun Y =>
   let n2 := zlen Y in
-  if b_lincom o then
-    if n2 =? 0 then Some [] else
-    let n1' := if n2 * s1 <? n1 * s2 then n2 * s1 / s2 else n1 in
-    Some (map (fun i => bkern A o rt (buf A X i) (buf A Y (i * s2 / s1))) (zrange 0 n1'))
-  else
-    let n1' := if (0 <? n2) && (n2 * s1 <? n1 * s2) then n2 * s1 / s2 else n1 in
-    Some (map (fun i => bkern A o rt (buf A X i) (buf A Y (i * s2 / s1))) (zrange 0 n1')))).
+  if n2 =? 0 then Some [] else
+  let n1' := alim n2 n1 s1 s2 r in
+  Some (map (fun i => bkern A o rt (buf A X i) (buf A Y ((r + i * s2) / s1))) (zrange 0 n1')))).
 Proof. reflexivity. Qed.
 
 Lemma uncovered_bin rt o g h s n :
@@ -197,9 +184,8 @@ Lemma uncovered_bin rt o g h s n :
    let c1 := spec_count g s n in
    uncovered rt g s n ++
    (if c1 <=? 0 then [] else
-    tag_if (negb (divides s1 (s * s2))) TUnaligned ++
-    (if b_lincom o then [] else tag_if (negb (eltb (s * s2 / s1) (eof h))) TEmpty2) ++
-    uncovered (b_in2 o) h (s * s2 / s1) (cdiv (c1 * s2) s1))).
+    tag_if (negb (v_align v) && negb (divides s1 (s * s2))) TUnaligned ++
+    uncovered (b_in2 o) h (s * s2 / s1) (cdiv (arem s s1 s2 + c1 * s2) s1))).
 Proof. reflexivity. Qed.
 
 Lemma eltb_elt k e : eltb k e = true -> elt k e.
@@ -207,17 +193,6 @@ Proof. destruct e; simpl; auto. intro H. apply Z.ltb_lt in H. exact H. Qed.
 
 Lemma spec_window_nil rt f s n : spec_count f s n <= 0 -> spec_window rt f s n = [].
 Proof. intro H. unfold Field.spec_window. rewrite zrange_nil; auto. Qed.
-
-(* the second input is exhausted at the (aligned) start: nothing is left *)
-Lemma cap_zero (E : ext) s q c s1 s2 num2 :
-  0 < s1 -> 0 < s2 -> 0 <= c -> s * s2 = q * s1 -> 0 < num2 ->
-  ecount E q num2 = 0 -> cap (escale E s1 s2) s c = 0.
-Proof.
-  intros H1 H2 Hc Hq Hn. destruct E as [e2|]; simpl; [|lia]. intro Hz.
-  assert (He : e2 <= q) by lia.
-  rewrite (scale_shift e2 s q s1 s2 H2 Hq).
-  assert ((e2 - q) * s1 / s2 < 1) by (apply div_lt_iff; nia). lia.
-Qed.
 
 (* ---- two inputs ------------------------------------------------------------ *)
 Lemma bin_case rt o g h s n :
@@ -244,47 +219,31 @@ Proof.
   { f_equal. symmetry. apply spec_window_nil. rewrite Hcount.
     pose proof (cap_le (escale (eof h) s1 s2) s c1). lia. }
   replace (c1 <=? 0) with false in Hc by (symmetry; apply Z.leb_gt; lia).
-  apply app_nil_inv in Hc. destruct Hc as [Hd Hc]. apply tag_if_nil in Hd. apply negb_false_iff in Hd.
-  apply app_nil_inv in Hc. destruct Hc as [He Hch].
-  pose proof (divides_spec s1 (s * s2) H1 Hd) as Hq.
-  set (q := s * s2 / s1) in *.
-  destruct (quot_exact (s * s2) s1 q H1 Hq) as [Hquot _]. rewrite Hquot.
-  assert (Hnum : 0 < cdiv (c1 * s2) s1) by (apply cdiv_pos; nia).
-  rewrite (IHh (b_in2 o) q (cdiv (c1 * s2) s1) Hwh ltac:(lia) Hch). cbn [obind].
+  apply app_nil_inv in Hc. destruct Hc as [Hd Hch]. apply tag_if_nil in Hd.
+  destruct (align_facts s s1 s2 H1 Hd) as (Hq & Hr & Eq & Er).
+  rewrite <- Eq, <- Er in Hch.
+  set (q := first2 v s s1 s2) in *. set (r := rem2 v s s1 s2) in *. clearbody q r.
+  assert (Hnum : 0 < cdiv (r + c1 * s2) s1) by (apply cdiv_pos; nia).
+  rewrite (IHh (b_in2 o) q (cdiv (r + c1 * s2) s1) Hwh ltac:(lia) Hch). cbn [obind].
   rewrite zlen_spec_window by lia.
   unfold Field.spec_count.
-  set (c2 := ecount (eof h) q (cdiv (c1 * s2) s1)).
+  set (c2 := ecount (eof h) q (cdiv (r + c1 * s2) s1)).
   assert (Hc2nn : 0 <= c2) by (apply ecount_nonneg; lia).
-  assert (Hvals : forall n1,
-    n1 = cap (escale (eof h) s1 s2) s c1 ->
-    (forall i, 0 <= i < n1 -> i * s2 / s1 < c2) ->
-    map (fun i => bkern A o rt (buf A (spec_window rt g s n) i)
-                   (buf A (spec_window (b_in2 o) h q (cdiv (c1 * s2) s1)) (i * s2 / s1))) (zrange 0 n1)
-    = spec_window rt (Bin o g h) s n).
-  { intros n1 Hn1 Hb. unfold Field.spec_window at 3. rewrite Hcount, <- Hn1.
-    apply map_zrange_ext2. intros i Hi. rewrite !Z.add_0_l.
-    assert (n1 <= c1) by (rewrite Hn1; apply cap_le).
-    rewrite buf_spec_window by (rewrite Ec1; lia).
-    assert (0 <= i * s2 / s1) by (apply Z.div_pos; [apply Z.mul_nonneg_nonneg; lia | lia]).
-    rewrite buf_spec_window by (unfold Field.spec_count; fold c2; specialize (Hb i Hi); lia).
-    cbn [Field.spec_val]. rewrite Es1, Es2. rewrite (align_index s i s1 s2 q H1 Hq).
-    reflexivity. }
-  destruct (b_lincom o) eqn:Hlin.
-  - (* LINCOM: an empty second read ends the field cleanly *)
-    destruct (Z.eqb_spec c2 0) as [Hz2|Hnz2].
-    + f_equal. symmetry. apply spec_window_nil. rewrite Hcount.
-      rewrite (cap_zero (eof h) s q c1 s1 s2 _ H1 H2 Hc1 Hq Hnum Hz2). lia.
-    + assert (Helt : elt q (eof h)) by (apply (ecount_pos_elt _ q (cdiv (c1 * s2) s1)); fold c2; lia).
-      pose proof (bin_stage (eof h) s q c1 s1 s2 H1 H2 ltac:(lia) Hq Helt) as Hst.
-      cbv zeta in Hst. fold c2 in Hst. destruct Hst as (Hp2 & Hn1 & Hb).
-      replace (0 <? c2) with true in Hn1, Hb by (symmetry; apply Z.ltb_lt; lia).
-      rewrite andb_true_l in Hn1, Hb.
-      f_equal. apply Hvals; auto.
-  - (* MULTIPLY / DIVIDE / WINDOW *)
-    apply tag_if_nil in He. apply negb_false_iff in He.
-    pose proof (bin_stage (eof h) s q c1 s1 s2 H1 H2 ltac:(lia) Hq (eltb_elt _ _ He)) as Hst.
-    cbv zeta in Hst. fold c2 in Hst. destruct Hst as (Hp2 & Hn1 & Hb).
-    f_equal. apply Hvals; auto.
+  destruct (Z.eqb_spec c2 0) as [Hz2|Hnz2].
+  { f_equal. symmetry. apply spec_window_nil. rewrite Hcount.
+    rewrite (cap_zero (eof h) s q r c1 s1 s2 _ H1 H2 Hc1 Hq Hr Hnum Hz2). lia. }
+  assert (Helt : elt q (eof h)) by (apply (ecount_pos_elt _ q (cdiv (r + c1 * s2) s1)); fold c2; lia).
+  pose proof (bin_stage (eof h) s q r c1 s1 s2 H1 H2 ltac:(lia) Hq Hr Helt) as Hst.
+  cbv zeta in Hst. fold c2 in Hst. destruct Hst as (Hp2 & Hn1 & Hb).
+  set (n1 := alim c2 c1 s1 s2 r) in *.
+  f_equal. unfold Field.spec_window at 3. rewrite Hcount, <- Hn1.
+  apply map_zrange_ext2. intros i Hi. rewrite !Z.add_0_l.
+  assert (n1 <= c1) by (rewrite Hn1; apply cap_le).
+  rewrite buf_spec_window by (rewrite Ec1; lia).
+  assert (0 <= (r + i * s2) / s1) by (apply Z.div_pos; [nia | lia]).
+  rewrite buf_spec_window by (unfold Field.spec_count; fold c2; specialize (Hb i Hi); lia).
+  cbn [Field.spec_val]. rewrite Es1, Es2. rewrite (align_index_r s i s1 s2 q r H1 Hq).
+  reflexivity.
 Qed.
 
 (* ---- three inputs (LINCOM 3) -------------------------------------------------- *)
@@ -294,17 +253,18 @@ Lemma impl_read_tri rt o g h l s n :
   let n1 := zlen X in
   if n1 =? 0 then Some [] else
   let s1 := spf g in let s2 := spf h in let s3 := spf l in
-  obind (impl_read F64 h (Z.quot (s * s2) s1) (cdiv (n1 * s2) s1)) (fun Y =>
+  let r2 := rem2 v s s1 s2 in let r3 := rem2 v s s1 s3 in
+  obind (impl_read F64 h (first2 v s s1 s2) (cdiv (r2 + n1 * s2) s1)) (fun Y =>
   let n2 := zlen Y in
   if n2 =? 0 then Some [] else
-  let n1' := if n2 * s1 <? n1 * s2 then n2 * s1 / s2 else n1 in
-  if cdiv (n1' * s3) s1 =? 0 then None
+  let n1' := alim n2 n1 s1 s2 r2 in
+  if n1' =? 0 then (if v_align v || v_alloc0 v then Some [] else None)
   else
-  obind (impl_read F64 l (Z.quot (s * s3) s1) (cdiv (n1' * s3) s1)) (fun W =>
+  obind (impl_read F64 l (first2 v s s1 s3) (cdiv (r3 + n1' * s3) s1)) (fun W =>
   let n3 := zlen W in
   if n3 =? 0 then Some [] else
-  let n1'' := if n3 * s1 <? n1' * s3 then n3 * s1 / s3 else n1' in
-  Some (map (fun i => tkern A o rt (buf A X i) (buf A Y (i * s2 / s1)) (buf A W (i * s3 / s1)))
+  let n1'' := alim n3 n1' s1 s3 r3 in
+  Some (map (fun i => tkern A o rt (buf A X i) (buf A Y ((r2 + i * s2) / s1)) (buf A W ((r3 + i * s3) / s1)))
             (zrange 0 n1''))))).
 Proof. reflexivity. Qed.
 
@@ -314,18 +274,16 @@ Lemma uncovered_tri rt o g h l s n :
    let c1 := spec_count g s n in
    uncovered rt g s n ++
    (if c1 <=? 0 then [] else
-    tag_if (negb (divides s1 (s * s2))) TUnaligned ++
-    uncovered F64 h (s * s2 / s1) (cdiv (c1 * s2) s1) ++
-    let c2 := spec_count h (s * s2 / s1) (cdiv (c1 * s2) s1) in
+    tag_if (negb (v_align v) && negb (divides s1 (s * s2))) TUnaligned ++
+    uncovered F64 h (s * s2 / s1) (cdiv (arem s s1 s2 + c1 * s2) s1) ++
+    let c2 := spec_count h (s * s2 / s1) (cdiv (arem s s1 s2 + c1 * s2) s1) in
     if c2 <=? 0 then [] else
-    let n1 := if c2 * s1 <? c1 * s2 then c2 * s1 / s2 else c1 in
-    tag_if (negb (divides s1 (s * s3))) TUnaligned ++
-    tag_if (cdiv (n1 * s3) s1 =? 0) TAllocZero ++
-    uncovered F64 l (s * s3 / s1) (cdiv (n1 * s3) s1))).
+    let n1 := alim c2 c1 s1 s2 (arem s s1 s2) in
+    tag_if (negb (v_align v || v_alloc0 v) && (n1 =? 0)) TAllocZero ++
+    (if n1 <=? 0 then [] else
+     tag_if (negb (v_align v) && negb (divides s1 (s * s3))) TUnaligned ++
+     uncovered F64 l (s * s3 / s1) (cdiv (arem s s1 s3 + n1 * s3) s1)))).
 Proof. reflexivity. Qed.
-
-Lemma cdiv_zero b : 0 < b -> cdiv 0 b = 0.
-Proof. intro. unfold cdiv. apply Z.div_small. lia. Qed.
 
 Lemma tri_case rt o g h l s n :
   (forall rt s n, wf g -> 0 <= n -> covered rt g s n -> impl_read rt g s n = Some (spec_window rt g s n)) ->
@@ -354,60 +312,60 @@ Proof.
   { f_equal. symmetry. apply spec_window_nil. rewrite Hcount.
     pose proof (cap_le e3 s (cap e2 s c1)). pose proof (cap_le e2 s c1). lia. }
   replace (c1 <=? 0) with false in Hc by (symmetry; apply Z.leb_gt; lia).
-  apply app_nil_inv in Hc. destruct Hc as [Hd2 Hc]. apply tag_if_nil in Hd2. apply negb_false_iff in Hd2.
+  apply app_nil_inv in Hc. destruct Hc as [Hd2 Hc]. apply tag_if_nil in Hd2.
   apply app_nil_inv in Hc. destruct Hc as [Hch Hc].
-  pose proof (divides_spec s1 (s * s2) H1 Hd2) as Hq2. set (q2 := s * s2 / s1) in *.
-  destruct (quot_exact (s * s2) s1 q2 H1 Hq2) as [Hquot2 _]. rewrite Hquot2.
-  assert (Hnum2 : 0 < cdiv (c1 * s2) s1) by (apply cdiv_pos; nia).
-  rewrite (IHh F64 q2 (cdiv (c1 * s2) s1) Hwh ltac:(lia) Hch). cbn [obind]. rewrite zlen_spec_window by lia.
+  destruct (align_facts s s1 s2 H1 Hd2) as (Hq2 & Hr2 & Eq2 & Er2).
+  rewrite <- Eq2, <- Er2 in Hch, Hc.
+  set (q2 := first2 v s s1 s2) in *. set (r2 := rem2 v s s1 s2) in *. clearbody q2 r2.
+  assert (Hnum2 : 0 < cdiv (r2 + c1 * s2) s1) by (apply cdiv_pos; nia).
+  rewrite (IHh F64 q2 (cdiv (r2 + c1 * s2) s1) Hwh ltac:(lia) Hch). cbn [obind]. rewrite zlen_spec_window by lia.
   unfold Field.spec_count in Hc |- *.
-  set (c2 := ecount (eof h) q2 (cdiv (c1 * s2) s1)) in *.
+  set (c2 := ecount (eof h) q2 (cdiv (r2 + c1 * s2) s1)) in *.
   assert (Hc2nn : 0 <= c2) by (apply ecount_nonneg; lia).
   destruct (Z.eqb_spec c2 0) as [Hz2|Hnz2].
   { f_equal. symmetry. apply spec_window_nil. rewrite Hcount.
-    unfold e2. rewrite (cap_zero (eof h) s q2 c1 s1 s2 _ H1 H2 Hc1 Hq2 Hnum2 Hz2).
+    unfold e2. rewrite (cap_zero (eof h) s q2 r2 c1 s1 s2 _ H1 H2 Hc1 Hq2 Hr2 Hnum2 Hz2).
     pose proof (cap_le e3 s 0). lia. }
-  assert (Helt2 : elt q2 (eof h)) by (apply (ecount_pos_elt _ q2 (cdiv (c1 * s2) s1)); fold c2; lia).
-  pose proof (bin_stage (eof h) s q2 c1 s1 s2 H1 H2 ltac:(lia) Hq2 Helt2) as Hst.
+  assert (Helt2 : elt q2 (eof h)) by (apply (ecount_pos_elt _ q2 (cdiv (r2 + c1 * s2) s1)); fold c2; lia).
+  pose proof (bin_stage (eof h) s q2 r2 c1 s1 s2 H1 H2 ltac:(lia) Hq2 Hr2 Helt2) as Hst.
   cbv zeta in Hst. fold c2 in Hst. fold e2 in Hst. destruct Hst as (_ & Hn1 & Hb2).
-  replace (0 <? c2) with true in Hn1, Hb2 by (symmetry; apply Z.ltb_lt; lia).
-  rewrite andb_true_l in Hn1, Hb2.
   replace (c2 <=? 0) with false in Hc by (symmetry; apply Z.leb_gt; lia).
-  set (n1 := if c2 * s1 <? c1 * s2 then c2 * s1 / s2 else c1) in *.
-  apply app_nil_inv in Hc. destruct Hc as [Hd3 Hc]. apply tag_if_nil in Hd3. apply negb_false_iff in Hd3.
-  apply app_nil_inv in Hc. destruct Hc as [Hal Hcl]. apply tag_if_nil in Hal.
-  rewrite Hal.
+  set (n1 := alim c2 c1 s1 s2 r2) in *.
+  apply app_nil_inv in Hc. destruct Hc as [Hal Hc]. apply tag_if_nil in Hal.
   assert (Hn1nn : 0 <= n1) by (rewrite Hn1; apply cap_nonneg; lia).
-  assert (Hn1pos : 0 < n1).
-  { destruct (Z.eq_dec n1 0) as [E|E]; [|lia]. rewrite E in Hal. simpl in Hal.
-    rewrite cdiv_zero in Hal by lia. discriminate. }
-  pose proof (divides_spec s1 (s * s3) H1 Hd3) as Hq3. set (q3 := s * s3 / s1) in *.
-  destruct (quot_exact (s * s3) s1 q3 H1 Hq3) as [Hquot3 _]. rewrite Hquot3.
-  assert (Hnum3 : 0 < cdiv (n1 * s3) s1) by (apply cdiv_pos; nia).
-  rewrite (IHl F64 q3 (cdiv (n1 * s3) s1) Hwl ltac:(lia) Hcl). cbn [obind]. rewrite zlen_spec_window by lia.
+  destruct (Z.eqb_spec n1 0) as [Hz1|Hnz1].
+  { (* field two ends the field before the first sample *)
+    rewrite andb_true_r in Hal. apply negb_false_iff in Hal. rewrite Hal.
+    f_equal. symmetry. apply spec_window_nil. rewrite Hcount, <- Hn1, Hz1.
+    pose proof (cap_le e3 s 0). lia. }
+  replace (n1 <=? 0) with false in Hc by (symmetry; apply Z.leb_gt; lia).
+  apply app_nil_inv in Hc. destruct Hc as [Hd3 Hcl]. apply tag_if_nil in Hd3.
+  destruct (align_facts s s1 s3 H1 Hd3) as (Hq3 & Hr3 & Eq3 & Er3).
+  rewrite <- Eq3, <- Er3 in Hcl.
+  set (q3 := first2 v s s1 s3) in *. set (r3 := rem2 v s s1 s3) in *. clearbody q3 r3.
+  assert (Hnum3 : 0 < cdiv (r3 + n1 * s3) s1) by (apply cdiv_pos; nia).
+  rewrite (IHl F64 q3 (cdiv (r3 + n1 * s3) s1) Hwl ltac:(lia) Hcl). cbn [obind]. rewrite zlen_spec_window by lia.
   unfold Field.spec_count.
-  set (c3 := ecount (eof l) q3 (cdiv (n1 * s3) s1)) in *.
+  set (c3 := ecount (eof l) q3 (cdiv (r3 + n1 * s3) s1)) in *.
   assert (Hc3nn : 0 <= c3) by (apply ecount_nonneg; lia).
   destruct (Z.eqb_spec c3 0) as [Hz3|Hnz3].
   { f_equal. symmetry. apply spec_window_nil. rewrite Hcount, <- Hn1.
-    unfold e3. rewrite (cap_zero (eof l) s q3 n1 s1 s3 _ H1 H3 Hn1nn Hq3 Hnum3 Hz3). lia. }
-  assert (Helt3 : elt q3 (eof l)) by (apply (ecount_pos_elt _ q3 (cdiv (n1 * s3) s1)); fold c3; lia).
-  pose proof (bin_stage (eof l) s q3 n1 s1 s3 H1 H3 Hn1pos Hq3 Helt3) as Hst.
+    unfold e3. rewrite (cap_zero (eof l) s q3 r3 n1 s1 s3 _ H1 H3 Hn1nn Hq3 Hr3 Hnum3 Hz3). lia. }
+  assert (Helt3 : elt q3 (eof l)) by (apply (ecount_pos_elt _ q3 (cdiv (r3 + n1 * s3) s1)); fold c3; lia).
+  pose proof (bin_stage (eof l) s q3 r3 n1 s1 s3 H1 H3 ltac:(lia) Hq3 Hr3 Helt3) as Hst.
   cbv zeta in Hst. fold c3 in Hst. fold e3 in Hst. destruct Hst as (_ & Hn2 & Hb3).
-  replace (0 <? c3) with true in Hn2, Hb3 by (symmetry; apply Z.ltb_lt; lia).
-  rewrite andb_true_l in Hn2, Hb3.
-  set (n2 := if c3 * s1 <? n1 * s3 then c3 * s1 / s3 else n1) in *.
+  set (n2 := alim c3 n1 s1 s3 r3) in *.
   f_equal. unfold Field.spec_window at 4. rewrite Hcount, <- Hn1, <- Hn2.
   apply map_zrange_ext2. intros i Hi. rewrite !Z.add_0_l.
   assert (n2 <= n1) by (rewrite Hn2; apply cap_le).
   assert (n1 <= c1) by (rewrite Hn1; apply cap_le).
   rewrite buf_spec_window by (rewrite Ec1; lia).
-  assert (0 <= i * s2 / s1) by (apply Z.div_pos; [apply Z.mul_nonneg_nonneg; lia | lia]).
-  assert (0 <= i * s3 / s1) by (apply Z.div_pos; [apply Z.mul_nonneg_nonneg; lia | lia]).
+  assert (0 <= (r2 + i * s2) / s1) by (apply Z.div_pos; [nia | lia]).
+  assert (0 <= (r3 + i * s3) / s1) by (apply Z.div_pos; [nia | lia]).
   rewrite buf_spec_window by (unfold Field.spec_count; fold c2; specialize (Hb2 i ltac:(lia)); lia).
   rewrite buf_spec_window by (unfold Field.spec_count; fold c3; specialize (Hb3 i Hi); lia).
   cbn [Field.spec_val]. rewrite Es1, Es2, Es3.
-  rewrite (align_index s i s1 s2 q2 H1 Hq2), (align_index s i s1 s3 q3 H1 Hq3).
+  rewrite (align_index_r s i s1 s2 q2 r2 H1 Hq2), (align_index_r s i s1 s3 q3 r3 H1 Hq3).
   reflexivity.
 Qed.
 
@@ -510,27 +468,28 @@ Lemma impl_read_mplex rt g h cnt per s n :
   let n1 := zlen X in
   if n1 =? 0 then Some [] else
   let s1 := spf g in let s2 := spf h in
-  let num2 := cdiv (n1 * s2) s1 in
-  let first2 := Z.quot (s * s2) s1 in
-  obind (impl_read I32 h first2 num2) (fun Y =>
+  let r := rem2 v s s1 s2 in
+  let f2 := first2 v s s1 s2 in
+  obind (impl_read I32 h f2 (cdiv (r + n1 * s2) s1)) (fun Y =>
   let n2 := zlen Y in
+  if n2 =? 0 then Some [] else
   obind
     (if mplex_match A cnt (buf A Y 0) then Some (pad A rt)
      else
        obind
-         (if first2 <=? 0 then Some (pad A rt)
+         (if f2 <=? 0 then Some (pad A rt)
           else
-            obind (impl_read I32 h 0 first2) (fun L =>
+            obind (impl_read I32 h 0 f2) (fun L =>
             match last_match A cnt L 0 None with
             | Some j => obind (impl_read rt g (j * s1 / s2) 1) (fun R => Some (hd (pad A rt) R))
             | None => Some (pad A rt)
             end))
-         (fun st => if seek_ok g (s + n1) && seek_ok h (first2 + n2) then Some st else None))
+         (fun st => if seek_ok g (s + n1) && seek_ok h (f2 + n2) then Some st else None))
     (fun start =>
-  let n1' := if (0 <? n2) && (n2 * s1 <? n1 * s2) then n2 * s1 / s2 else n1 in
+  let n1' := alim n2 n1 s1 s2 r in
   Some (mplex_fold A cnt start
           (map (buf A X) (zrange 0 n1'))
-          (map (fun i => buf A Y (i * s2 / s1)) (zrange 0 n1')))))).
+          (map (fun i => buf A Y ((r + i * s2) / s1)) (zrange 0 n1')))))).
 Proof. reflexivity. Qed.
 
 Lemma uncovered_mplex rt g h cnt per s n :
@@ -541,10 +500,9 @@ Lemma uncovered_mplex rt g h cnt per s n :
    (if c1 <=? 0 then [] else
     tag_if (negb (s1 =? s2)) TMplexRate ++
     tag_if (s <? 0) TMplexNeg ++
-    tag_if (negb (eltb (s * s2 / s1) (eof h))) TEmpty2 ++
     tag_if (negb (seek_ok g (s + c1) &&
-                  seek_ok h (s * s2 / s1 + spec_count h (s * s2 / s1) (cdiv (c1 * s2) s1)))) TMplexSeek ++
-    uncovered I32 h (s * s2 / s1) (cdiv (c1 * s2) s1) ++
+                  seek_ok h (s * s2 / s1 + spec_count h (s * s2 / s1) (cdiv (arem s s1 s2 + c1 * s2) s1)))) TMplexSeek ++
+    uncovered I32 h (s * s2 / s1) (cdiv (arem s s1 s2 + c1 * s2) s1) ++
     (if 0 <? s * s2 / s1 then
        uncovered I32 h 0 (s * s2 / s1) ++
        concat (map (fun j => uncovered rt g (j * s1 / s2) 1) (zrange 0 (s * s2 / s1)))
@@ -584,17 +542,28 @@ Proof.
   set (s1 := spf g) in *. set (c1 := spec_count g s n) in *.
   assert (Es1 : spf g = s1) by reflexivity. assert (Ec1 : spec_count g s n = c1) by reflexivity.
   clearbody s1 c1.
-  rewrite Z.quot_mul by lia. rewrite Z.div_mul in Hc by lia. rewrite cdiv_mul in * by lia.
+  (* equal rates: the second input starts at s with remainder 0 in both variants *)
+  assert (Hdv : negb (v_align v) && negb (divides s1 (s * s1)) = false).
+  { unfold divides. rewrite Z.mod_mul by lia. simpl. apply andb_false_r. }
+  destruct (align_facts s s1 s1 H1 Hdv) as (_ & _ & Eq & Er).
+  rewrite Eq, Er. unfold arem in *. rewrite Z.mod_mul in * by lia. rewrite Z.div_mul in * by lia.
+  rewrite Z.add_0_l in *. rewrite cdiv_mul in * by lia.
   apply app_nil_inv in Hc. destruct Hc as [Hs0 Hc]. apply tag_if_nil in Hs0. apply Z.ltb_ge in Hs0.
-  apply app_nil_inv in Hc. destruct Hc as [He Hc]. apply tag_if_nil in He. apply negb_false_iff in He.
   apply app_nil_inv in Hc. destruct Hc as [Hsk Hc]. apply tag_if_nil in Hsk. apply negb_false_iff in Hsk.
   apply app_nil_inv in Hc. destruct Hc as [Hch Hlb].
   rewrite (IHh I32 s c1 Hwh Hc1 Hch). cbn [obind]. rewrite zlen_spec_window by auto.
-  pose proof (bin_stage (eof h) s s c1 s1 s1 H1 H1 ltac:(lia) eq_refl (eltb_elt _ _ He)) as Hst.
-  cbv zeta in Hst. rewrite cdiv_mul in Hst by lia. destruct Hst as (Hp2 & Hn1 & Hb).
   unfold Field.spec_count in Hsk |- *.
   set (c2 := ecount (eof h) s c1) in *.
-  set (n1 := if (0 <? c2) && (c2 * s1 <? c1 * s1) then c2 * s1 / s1 else c1) in *.
+  assert (Hc2nn : 0 <= c2) by (apply ecount_nonneg; lia).
+  assert (Hq : s * s1 = s * s1 + 0) by lia.
+  destruct (Z.eqb_spec c2 0) as [Hz2|Hnz2].
+  { f_equal. symmetry. apply spec_window_nil. rewrite Hcount.
+    rewrite (cap_zero (eof h) s s 0 c1 s1 s1 c1 H1 H1 Hc1 Hq ltac:(lia) ltac:(lia) Hz2). lia. }
+  assert (He : elt s (eof h)) by (apply (ecount_pos_elt _ s c1); fold c2; lia).
+  pose proof (bin_stage (eof h) s s 0 c1 s1 s1 H1 H1 ltac:(lia) Hq ltac:(lia) He) as Hst.
+  cbv zeta in Hst. rewrite Z.add_0_l, cdiv_mul in Hst by lia. fold c2 in Hst.
+  destruct Hst as (Hp2 & Hn1 & Hb).
+  set (n1 := alim c2 c1 s1 s1 0) in *.
   assert (Hn1le : n1 <= c1) by (rewrite Hn1; apply cap_le).
   assert (Hn1nn : 0 <= n1) by (rewrite Hn1; apply cap_nonneg; lia).
   assert (Helt_g : elt s (eof g)).
@@ -629,7 +598,7 @@ Proof.
     apply app_nil_inv in Hlb. destruct Hlb as [Hl0 Hlg].
     rewrite (IHh I32 0 s Hwh ltac:(lia) Hl0). cbn [obind].
     unfold Field.spec_window at 1. unfold Field.spec_count.
-    rewrite (ecount_full (eof h) s ltac:(lia) (eltb_elt _ _ He)). fold gi.
+    rewrite (ecount_full (eof h) s ltac:(lia) He). fold gi.
     pose proof (last_match_spec cnt gi (Z.to_nat s) 0 None) as Hlm. cbv zeta in Hlm.
     rewrite Z2Nat.id in Hlm by lia.
     destruct Hlm as [[Hr Hno]|(j & Hr & Hj & Hg & Hno)]; rewrite Hr.
@@ -654,9 +623,9 @@ Proof.
   replace (map (buf A (spec_window rt g s n)) (zrange 0 n1)) with (map fv (zrange s n1)).
   2:{ apply map_zrange_ext2. intros i Hi. rewrite Z.add_0_l.
       rewrite buf_spec_window by (rewrite Ec1; lia). reflexivity. }
-  replace (map (fun i => buf A (spec_window I32 h s c1) (i * s1 / s1)) (zrange 0 n1)) with (map gi (zrange s n1)).
-  2:{ apply map_zrange_ext2. intros i Hi. rewrite Z.add_0_l. rewrite Z.div_mul by lia.
-      pose proof (Hb i Hi) as Hbi. rewrite Z.div_mul in Hbi by lia.
+  replace (map (fun i => buf A (spec_window I32 h s c1) ((0 + i * s1) / s1)) (zrange 0 n1)) with (map gi (zrange s n1)).
+  2:{ apply map_zrange_ext2. intros i Hi. rewrite !Z.add_0_l. rewrite Z.div_mul by lia.
+      pose proof (Hb i Hi) as Hbi. rewrite Z.add_0_l, Z.div_mul in Hbi by lia.
       rewrite buf_spec_window by (unfold Field.spec_count; fold c2; lia). reflexivity. }
   rewrite <- (Z2Nat.id n1 Hn1nn).
   apply (fold_spec cnt fv gi (pad A rt) (Z.to_nat n1) s st Hs0 Hst).
